@@ -1214,3 +1214,91 @@ def judge_phases(ctx, cases, suffix=""):
             if sig not in seen:
                 seen.add(sig)
                 ctx.add_failure("oracle", "own:phases", sig + suffix, detail, witness=phases_witness(c))
+
+
+# ---------------------------------------------------------------------------------------------
+# a DIRECTORY on the way to an output replaced by a symbolic link to a directory of the user
+# ---------------------------------------------------------------------------------------------
+
+
+async def parent_link_case(site, volatile=False):
+    """Step mk wrote res/o.txt (a regular or volatile output).  The user copies the results (`cp -r res backup`),
+    removes res/ and makes it a symbolic link to backup/: res/o.txt now IS backup/o.txt, a file the user created at
+    a path no step ever declared.  mk is dropped; site "finalize": the real Builder.finalize; site "clean": the real
+    clean.clean(--commit) on the whole project."""
+    import shutil
+
+    from stepup.core.clean import clean
+    from stepup.core.hash import StepHash
+    hids = cc.HashIds()
+    out = "res/o.txt"
+    res = {"site": site, "volatile": volatile}
+    with cc.project_dir():
+        async with WF() as w:
+            Path("plan.py").write_text("#!/usr/bin/env python3\n")
+            async with w.db:
+                b = OwnBuilder(w, __import__("random").Random(0), hids)
+                b.link_prob = 0.0
+                b.write("src.txt", "source")
+                b.declare_static(w.plan, "src.txt")
+                b.define(w.plan, "mk", inp=["src.txt"], out=[] if volatile else [out], vol=[out] if volatile else [])
+                b.define(w.plan, "other", inp=["src.txt"], out=["other.txt"])
+                b.complete_all(list(b.steps))
+                b.meta()
+                shutil.copytree("res", "backup")
+                shutil.rmtree("res")
+                os.symlink("backup", "res")
+                b.log.append(["user: cp -r res backup; rm -r res; ln -s backup res"])
+                b.find_step("mk").detach()
+                b.log.append(["the plan no longer declares mk (detach)"])
+                w.plan.mark_completed(StepHash(b"plan", None, b"plan", None), False)
+            await cc.update_meta(w)
+            async with w.db:
+                g = cc.dump_graph(w, hids)
+            before = lsnap(".", hids)
+            client, reporter = cc.make_reporter()
+            err = None
+            try:
+                if site == "finalize":
+                    await cc.make_builder(w, reporter).finalize()
+                else:
+                    async with w.db:
+                        with contextlib.redirect_stdout(io.StringIO()):
+                            clean(w.db, {Path(".")}, cc.clean_namespace(False, True, True))
+            except Exception as e:  # noqa: BLE001
+                err = f"{type(e).__name__}: {e}"
+            after = lsnap(".", hids)
+            res.update({"before": before, "after": after, "error": err, "log": b.log, "graph": g,
+                        "removed_events": [x for t, x in client.reports if t == "REMOVE"]})
+    return res
+
+
+def parent_link_oracle(c):
+    out = []
+    for p, ent in sorted(c["before"].items()):
+        if p not in c["after"] and p.startswith("backup/"):
+            out.append((f"own:{c['site']}:removed:{what(ent)}:behind-linked-parent-directory",
+                        f"{p} is a file the user made (a copy of the results, at a path no step ever declared); the cleanup reached "
+                        f"it through res -> backup, where the {'volatile ' if c['volatile'] else ''}output res/o.txt used to be, "
+                        f"and removed it"))
+    for sig, detail in judge(c["site"], c["before"], c["after"], {}):
+        if ":altered:" in sig or ":created:" in sig:
+            out.append((sig, detail))
+    return out
+
+
+def parent_link_witness(c):
+    return {k: c[k] for k in ("site", "volatile", "log", "before", "after", "removed_events", "error")}
+
+
+def run_parent_links(ctx, suffix=""):
+    async def go():
+        return [await parent_link_case(site, vol) for site in ("finalize", "clean") for vol in (False, True)]
+    seen = set()
+    for c in cc.run(go()):
+        ctx.case(("own-parent-link", c["site"], c["volatile"]), True)
+        ctx.count("own_parent_link_cases", 1)
+        for sig, detail in parent_link_oracle(c):
+            if sig not in seen:
+                seen.add(sig)
+                ctx.add_failure("oracle", "own:parent-link", sig + suffix, detail, witness=parent_link_witness(c))
